@@ -9,7 +9,7 @@ PY = "/venv/bin/python"
 CHECKS = {
     "C01": ("exploration", "bex", "bounded exhaustive enumeration of inputs on the real code vs a bin-by-bin reference model",
             "Every assignment of a small value alphabet to every bin of every small grid (full products up to 8/9 cells, complete "
-            "structured families to 40 cells) x grid families x layouts x dtypes is run through the real accessor and compared with "
+            "structured families to 40 cells) x grid families (full circles and uniformly spaced sectors, also straddling north) x layouts x dtypes is run through the real accessor and compared with "
             "an independent plain-loop evaluation of each defining integral; bounded-exhaustive, not sampled.",
             "Values outside the alphabets and grids beyond the cell bound are not covered; integrals are linear in E so the impulse "
             "basis+pairs decide them per grid. dm accepts either moment convention consistently. numpy/xarray are trusted.",
@@ -24,7 +24,7 @@ CHECKS = {
             "3 C02"),
     "C04": ("exploration", "cdrv", "exhaustive enumeration of grids x spectra x level counts x shifts against specpart.c with a flood-fill oracle",
             "A C driver linked against the repo's specpart.c enumerates every assignment of 2/3/4-value alphabets to every cell of every "
-            "grid shape up to 12 cells (quick; 14 ternary / 18 binary thorough), complete structured families up to 8x8, 8 level "
+            "grid shape up to 12 cells (quick: ternary all shapes, 4-value on 3x4/4x3/2x6/6x2; 14 ternary / 18 binary thorough), complete structured families up to 8x8, 8 level "
             "counts and every circular shift of the direction axis; an independent flood-fill oracle checks labels>=1, one basin per "
             "regional maximum, connectivity on the cylinder and shift-equivariance. The same product runs through the python wrapper, "
             "there also with Fortran-ordered, strided and negative-stride float32 inputs.",
@@ -63,7 +63,7 @@ CHECKS = {
             "XWaves is not covered (no independent description of the MAT layout). Known finding: multi-point WW3 station files.",
             "3 C13"),
     "C19": ("model_checking", "hist", "exhaustive enumeration of partition histories plus explicit-state BFS over tracking states, executed on the real function",
-            "Every history of P partitions x T steps over a threshold-relative cell alphabet (P<=3,T<=3 quick; larger thorough) x 18 "
+            "Every history of P partitions x T steps over a threshold-relative cell alphabet (P<=3,T<=3 quick; larger thorough; one alphabet with directions written in other 360-degree windows) x 18 "
             "parameter/wind configurations runs through np_track_partitions and is checked against the statement's invariants with "
             "independently recomputed thresholds; a layered BFS over (last row, id pattern) states to T=6 re-executes the real function "
             "for every transition and checks prefix-closure and state-determinism; track_partitions on site batches and ptm1_track end to end.",
@@ -139,7 +139,7 @@ CHECKS = {
             "3 C07"),
     "C08": ("exploration", "bex", "bounded exhaustive enumeration of source/target grid pairs x complete spectrum families vs a reference piecewise-linear circular interpolant",
             "Source grids (3 frequency families x direction circles stored sorted / every rotation / descending / with a duplicated 0-360 "
-            "bin) x target frequency sets (identical, coarser, finer, shifted, below, above, both, single) x target direction sets (incl. "
+            "bin) x target frequency sets (identical, the same grid a few ppm off, coarser, finer, shifted, below, above, both, single) x target direction sets (incl. "
             "one crossing the seam and a descending one) x maintain_m0 on/off x impulse basis + pairs + full products on <=6 cells incl. "
             "the zero spectrum; rotate by every whole number of bins, 360, 720 and odd angles; coordinates, identity, non-negativity, zero "
             "above the range, the interpolant itself, Hs conservation, roll equivalence.",
@@ -147,7 +147,7 @@ CHECKS = {
             "input are not enumerated.",
             "3 C08"),
     "C11": ("exploration", "fmt", "exhaustive enumeration of datasets x writer options, written with the real writers and read back with the real readers, compared position by position",
-            "Datasets = times {1,2,3} x station/grid layouts x nf x nd x direction orders x magnitude-class assignments (zero, NaN, 1e-8..1e4, "
+            "Datasets = times {1,2,3} x station/grid layouts (incl. co-located stations and north-to-south latitude rows) x nf x nd x direction orders x magnitude-class assignments (zero, NaN, 1e-8..1e4, "
             "mixed; every spectrum distinguishable) x wind/depth x dtype; SWAN ASCII (plain/gz, ntime), JSON, wavespectra netCDF-3 "
             "(packed/unpacked, two readers), WW3 netCDF-3, Octopus (plain/gz, ntime), Funwave; times, positions, lon/lat, freq, dir and "
             "efth must come back at each format's printed resolution, zero as zero and NaN as missing.",
@@ -155,7 +155,7 @@ CHECKS = {
             "3 C11"),
     "C15": ("exploration", "bex", "exhaustive enumeration of parameter menus (full Cartesian products) for every constructor vs closed forms and plain-loop moments",
             "Full products of hs, fp (on/off node), gamma, alpha, sigma_a/b, depth, gw menus as scalars, DataArrays and mixed, on frequency "
-            "grids in both tail regimes; spreading functions on 12..72-direction circles (offset, descending) x dm menu incl. next to the "
+            "grids in both tail regimes; spreading functions on 12..72-direction circles (offset, descending; 180/360 directions for narrow beams down to 3 deg) x dm menu incl. next to the "
             "seam x dspr menu; construct_partition products: measured Hs equals the request (1e-10), non-negativity, jonswap(gamma=1)==PM, "
             "tma(deep)==jonswap within a derived bound, unit integral of every spreading function, oned(2D)==shape, measured dm/dspr equal "
             "the discrete moments (1e-9) and the request within a derived aliasing bound.",
@@ -163,7 +163,7 @@ CHECKS = {
             "resolve the spread; general asymmetric has no derivable tolerance.",
             "3 C15"),
     "C16": ("exploration", "bex", "exhaustive enumeration of grids x every odd window pair x stored direction orders x dimension orders vs a plain-loop window reference",
-            "Grids nf {1,3,5} x 13 direction grids (full circles with exactly representable spacing, partial and irregular grids) x every pair "
+            "Grids nf {1,3,5} x 16 direction grids (full circles with exactly representable spacing, also labelled outside [0,360), partial and irregular grids) x every pair "
             "of odd windows up to the grid size x stored order (sorted, rotations, descending) x dimension orders x dtypes x entry points x "
             "dask; impulse basis, constants, ramps and full products on a 6-cell block across the seam: grid preserved exactly, window 1 "
             "identity, min/max bound, window mean where the window fits, shift commutation on full circles, even windows rejected.",
